@@ -7,6 +7,7 @@
   `nrbytes` and EVERY integer `output_size`.
 -/
 import Xc.Lemmas.Gensalt
+import Xc.Lemmas.Mono
 
 namespace Xc.C13
 open Xc
@@ -138,5 +139,18 @@ example : (gensaltRn Config.tree (some [36, 54, 36]) 0 (some (List.replicate 16 
 example : (gensaltRn Config.tree (some [36, 54, 36]) 1000 (some (List.replicate 16 7)) 16 19).errno = some .ERANGE := by decide
 example : ((gensaltRn Config.tree (some [36, 54, 36]) 1000 (some (List.replicate 16 7)) 16 20).ret.map List.length) = some 19 := by decide
 example : (gensaltRn Config.tree none 0 none 0 2).buf = some [42] := by decide
+
+/-- **success is monotone in `output_size`, and a smaller buffer receives a leading part** of what a larger one receives
+    (the same string for every writer except the shared sha/md5 one, whose salt grows with the room) -/
+theorem C13_monotone (cfg : Config) (pfx : Option Bytes) (count : Nat) (rb : Option Bytes) (nrb : Int) (osize osize' : Int)
+    (os : Nat → Bytes) (S : Bytes) (h : (gensaltRn cfg pfx count rb nrb osize os).ret = some S) (ho : osize ≤ osize') :
+    ∃ S', (gensaltRn cfg pfx count rb nrb osize' os).ret = some S' ∧ S <+: S' :=
+  gensaltRn_monotone cfg pfx count rb nrb osize osize' os S h ho
+
+/-- **CRYPT_GENSALT_OUTPUT_SIZE bytes always suffice for up to 64 random bytes**: with a 192-byte buffer no writer reports
+    ERANGE, whatever the count and the random input -/
+theorem C13_192_suffices (d : Bool) (m : Method) (count : Nat) (rb : Bytes) (n : Nat) (hn : n ≤ 64) :
+    gensaltMethod d m count rb n Gen.CRYPT_GENSALT_OUTPUT_SIZE ≠ .err .ERANGE :=
+  room_method d m count rb n hn
 
 end Xc.C13
